@@ -24,8 +24,8 @@ Definition text_est (min_wrap : N) (t : text) (img : bool) : est :=
   mkest len (N.min len min_wrap) 0.
 
 Definition ol_prefix_size (d : deco) (start : Z) (n : nat) : res N :=
-  do sn <- iadd64 25 start (Z.of_nat n);
-  do mx <- iadd64 25 sn (-1)%Z;
+  let sn := isat64 (start + Z.of_nat n) in
+  let mx := isat64 (sn - 1) in
   Ok (N.max (utf8_len (d_ol_prefix d start)) (utf8_len (d_ol_prefix d mx))).
 
 Fixpoint upd_range {A} (l : list A) (from len : nat) (f : A -> A) : option (list A) :=
@@ -235,9 +235,10 @@ Fixpoint cell_widths (vertical : bool) (col_sizes : list N) (cells : list rcell)
                     else Ok (sumN (firstn (N.to_nat cspan) (skipn (N.to_nat colno) col_sizes))));
     do r <- cell_widths vertical col_sizes cells' (colno + cspan);
     if 0 <? cw_
-    then do w1 <- uadd 30 cw_ cspan;
-         do w2 <- usub 30 w1 1;
-         Ok (Some w2 :: r)
+    then if vertical then Ok (Some cw_ :: r)
+         else do w1 <- uadd 30 cw_ cspan;
+              do w2 <- usub 30 w1 1;
+              Ok (Some w2 :: r)
     else Ok (None :: r)
   end.
 
@@ -344,8 +345,8 @@ Section Render.
            items (Ok st);
       fin st1
     | IOl start items =>
-      do sn <- iadd64 25 start (Z.of_nat (length items));
-      do max_number <- iadd64 25 sn (-1)%Z;
+      let sn := isat64 (start + Z.of_nat (length items)) in
+      let max_number := isat64 (sn - 1) in
       let prefix_width := N.max (utf8_len (d_ol_prefix d start)) (utf8_len (d_ol_prefix d max_number)) in
       let prefixn := pad_chars [] prefix_width in
       do r <- fold_left
@@ -360,8 +361,7 @@ Section Render.
               let '(sub, s3) := pp in
               let prefix1 := pad_chars (d_ol_prefix d i) prefix_width in
               do s4 <- with_top s3 (fun t => append_subrender t sub prefix1 prefixn);
-              do i' <- iadd64 26 i 1%Z;
-              Ok (s4, i'))
+              Ok (s4, isat64 (i + 1)))
            items (Ok (st, start));
       fin (fst r)
     | IDl cs =>
